@@ -7,6 +7,12 @@ CHECKS = {
  'C01': dict(tech='TLA+ ideal-crypto decision model (Groth16Protocol.tla) checked by TLC; every behaviour replayed on real Setup/Prove/Verify of 7 curves',
              text='TLC enumerates all circuit-shape x edit-sequence behaviours (<=2 edits) and checks the transcribed verifier step list against the property; each behaviour is replayed on the real Groth16 code of every curve and the real verdict compared with the specified one.',
              note='Ideal-cryptography rule for pairings/PoK; adversaries outside the edit alphabet and numeric correctness of pairings are outside the model (observed only via accept/reject).', ref='6 C01'),
+ 'C04': dict(tech='TLA+ reference semantics (ApiSemantics.tla) + program generator (ProgGen.tla) in TLC; every program compiled by both real builders and solved for every assignment over F_47, compared with the TLC-cross-checked oracle',
+             text='TLC enumerates all single-call programs and seeded random programs of 2-4 calls over frontend.API with their documented meaning on probe assignments; each is compiled by the real R1CS and SCS builders over the 47-element field and solved for all 47^k assignments of the inputs it uses, under compression-threshold variants and over the other supported fields on corner assignments; success/failure and every intermediate value must match the reference semantics.',
+             note='The Go port of ApiSemantics used beyond the probe assignments is checked against TLC on 64 probes of every program each run; programs longer than 4 calls and hints/PLONK-specific gates are outside this generator.', ref='6 C04'),
+ 'C05': dict(tech='TLA+ exhaustive constraint solver (ConstraintSat.tla) on constraint rows exported from the real compiler over F_47, relation from ApiSemantics.tla; Go twin enumerator validated against TLC by exact state counts',
+             text='Every single API operation x operand-kind pattern x builder is compiled by the real builders over F_47, its rows exported with concrete coefficients, and every satisfying assignment of every wire (every dishonest hint output) is enumerated for all operand values; each must satisfy the documented relation. TLC enumerates a seeded subset itself and must explore exactly the number of partial assignments the Go enumerator reports.',
+             note='Exhaustive over F_47 only; TLC is ~10^3x slower than the Go twin, so TLC covers a state-bounded subset per run (all cases in the thorough tier budget) and validates the twin by state counts and a removed-row self-test.', ref='6 C05'),
  'C08': dict(tech='TLA+ step-machine model of both verifiers over input shapes (VerifierRobust.tla) + framing alphabet (Framing.tla), exhaustive in TLC; every shape and mutation replayed on real decoders/verifiers',
              text='TLC explores every combination of variable-length-part lengths (0..4 / 0..10) against the key on the transcribed step lists (no out-of-range access, inconsistent shapes end in an error) and enumerates every framing mutation of the encodings; all are applied to real proofs/witnesses (direct, compressed and raw encodings) and the real decode/verify outcome must be error or acceptance, never a panic or crash.',
              note='Content-level corruption inside a point encoding is sampled by bit flips; arbitrary byte strings are covered structurally, not by coverage-guided fuzzing. Allocation-bomb prefixes run under ulimit -v 8GB.', ref='6 C08'),
